@@ -43,7 +43,7 @@ package soyjs
 
 //@ functype jsEmitter
 //@   params s
-//@   props C14 C09
+//@   props C14 C09 C13
 //@   nosafety
 //@   noterm
 //@   modifies *
@@ -101,21 +101,21 @@ package soyjs
 //@   pure
 //@   trustedensures[names-are-generated;C14] jsok(result)
 //@ func (*scope).makevar
-//@   props C14 C09
+//@   props C14 C09 C13
 //@   nosafety
 //@   modifies *
 //@   preserves F!github.com/robfig/soy/ast.* F!github.com/robfig/soy/template.* E!Iface E!Str E!Int:uint8 E!Int:*github.com/robfig/soy/ast.*
 //@   requires[identifier;C14] jsok(varname)
 //@   ensures[generated-name;C14] jsok(result)
 //@ func (*scope).pushForRange
-//@   props C14 C09
+//@   props C14 C09 C13
 //@   nosafety
 //@   modifies *
 //@   preserves F!github.com/robfig/soy/ast.* F!github.com/robfig/soy/template.* E!Iface E!Str E!Int:uint8 E!Int:*github.com/robfig/soy/ast.*
 //@   requires[identifier;C14] jsok(loopVar)
 //@   ensures[generated-names;C14] jsok(lVar) && jsok(lLimit)
 //@ func (*scope).pushForEach
-//@   props C14 C09
+//@   props C14 C09 C13
 //@   nosafety
 //@   modifies *
 //@   preserves F!github.com/robfig/soy/ast.* F!github.com/robfig/soy/template.* E!Iface E!Str E!Int:uint8 E!Int:*github.com/robfig/soy/ast.*
@@ -133,7 +133,7 @@ package soyjs
 //@ func (*state).visitPrint
 //@   like jsEmitter
 //@   loop 0
-//@     invariant[filtered-list-is-a-new-slice;C09] fresh(directives)
+//@     invariant[filtered-list-is-a-new-slice;C09,C13] fresh(directives)
 //@ func (*state).visitFunction
 //@   like jsEmitter
 //@ func (*state).visitCall
